@@ -213,4 +213,20 @@ CLAIMED["C20"] = dict(
          "recorded families: nested action-terminated labelled DO, nested name(args) references); expression-level "
          "calls are outside the engine model and are measured only.",
     technique="Rocq proof (parse-cache invariant: statement-level matches are linear) + exact cost correspondence + growth measurement over a family catalogue")
+CLAIMED["C16"] = dict(
+    design_ref="DESIGN.md 4 (C16)",
+    text="Theorems: (a) the enter/exit operations induced by ANY scope forest (any depth and width), run below any "
+         "well-formed current scope, append exactly that forest as tables, in source order, and return to the same "
+         "scope; at top level one table per distinct unit name; (b) an attempt that is entered, filled, left and "
+         "removed leaves the tables unchanged (fresh name); (c) engine, regenerated tables, every leaf oracle: every "
+         "rule invocation returns to the scope it started in, and a (line, class) pair is matched at most once, so "
+         "declaration side effects are not repeated by back-tracking. Tie: table structure after the parse is compared "
+         "model vs implementation on generated nested programs. Search: generated programs with random nesting of "
+         "modules / subprograms / BLOCKs, shadowing declarations (generic and specific intrinsic names) and ONLY-imports "
+         "at chosen levels: table tree == scope tree, symbols and modules per table, and every reference is an "
+         "intrinsic reference iff not shadowed (ground truth by construction).",
+    note=ENGINE_NOTE + " Partial: that the engine emits enter/exit exactly in bracket order of the scoping statements "
+         "of the result tree is not a theorem (correspondence); the contents of a table and the lookup in "
+         "Intrinsic_Function_Reference.match are statement-level code, checked end to end only.",
+    technique="Rocq proof (scope-forest theorem for the table bookkeeping by induction over forests; engine K3; parse-cache once-ness) + table-structure correspondence + ground-truth search over generated scope nests")
 NOT_CLAIMED = {}
